@@ -9,7 +9,7 @@ from .xt import veq
 
 VMODES = ["ramp", "extreme", "minimal", "long"]
 PY_FORMS = ["py"]
-ND = ["nd", "ndF", "ndS", "ndD", "ndR", "ndFD", "ndTD"]
+ND = ["nd", "ndF", "ndS", "ndD", "ndR", "ndFD", "ndTD", "ndB"]
 XOBJ = ["xobj-same", "xobj-other", "xobj-ctx", "xobj-kind", "xobj-nested", "xobj-slack", "ref-same", "ref-foreign", "xobj-view", "xobj-nested-view", "xobj-twin", "xobj-capslack"]
 CAP = ["cap"]
 
